@@ -112,6 +112,10 @@ func (l *lexer) Lex(lval *yySymType) int {
 			continue
 
 		default:
+			if int(token) >= yyPrivate {
+				// the character's code is one of the parser's token numbers
+				return yyLexErrorf(l, "unexpected character %q", text)
+			}
 			lval.yys = int(token)
 			lval.string = text
 
